@@ -113,6 +113,10 @@ func (g *Gen) verifyFunc(fc *FuncContract) (vc *VC) {
 				g.vc.assume("", fmt.Sprintf("(<= (allocid$ %s) 0)", v.T))
 			}
 		}
+		if v.S == "Slice" {
+			// the backing array of a slice parameter existed before the call
+			g.vc.assume("", fmt.Sprintf("(<= (allocid$ (sarr %s)) 0)", v.T))
+		}
 	}
 	// closures verified standalone: free variables are arbitrary cells
 	for _, fv := range fn.FreeVars {
